@@ -245,6 +245,13 @@ func (s *Session) resume(o *Config) bool {
 				return false
 			}
 			s.smActive = true
+			if p.H != nil {
+				if err := s.sendUnhandled(int(*p.H)); err != nil {
+					// The connection is gone again; the stanzas stay held for the next attempt.
+					s.err = err
+					return false
+				}
+			}
 			return true
 		case stanza.SMFailed:
 		default:
@@ -253,6 +260,29 @@ func (s *Session) resume(o *Config) bool {
 	}
 	s.SMState = SMState{}
 	return false
+}
+
+// sendUnhandled is the client's part of a resumption (XEP-0198, 5): the server has handled h of the
+// stanzas sent on the session. Those are done with; the others are sent again now, in their order,
+// and counted from h on - what was sent on the lost connection after them never reached the server,
+// so it does not count for its later acknowledgements either.
+func (s *Session) sendUnhandled(h int) error {
+	uaq := s.SMState.UnAckQueue
+	if uaq == nil {
+		return nil
+	}
+	uaq.RWMutex.Lock()
+	defer uaq.RWMutex.Unlock()
+	pending := uaq.Restart(h)
+	for _, elt := range pending {
+		uaq.Push(elt)
+	}
+	for _, elt := range pending {
+		if _, err := s.transport.Write([]byte(elt.Stz)); err != nil {
+			return err
+		}
+	}
+	return nil
 }
 
 func (s *Session) bind(o *Config) {
